@@ -51,7 +51,9 @@ func cells() []fw.Case {
 // overlapping pairs, exhaustively: in every live state and in ERROR, a first request that gets as far as
 // its critical section (every legal transition with a passing or failing body, a teardown) and, arriving
 // while it is in there, every kind of second request (teardown with/without force, every API event
-// through the glue and through TryTransition, GO_ERROR)
+// through the glue and through TryTransition, GO_ERROR). The teardown + control pairs among them are the class
+// of the repaired finding control_overlaps_teardown: the held control request finds the environment DONE,
+// is refused and must leave it DONE (a DONE -> ERROR report is a plain violation now).
 func overlapCells() []fw.Case {
 	path := map[string][][2]string{
 		"STANDBY":    {},
@@ -159,20 +161,21 @@ func init() {
 		Nontrivial: envh.Nontrivial,
 		Rule: "all 6x8 (state,event) cells x {TryTransition, API glue} x {body ok, body fails} with hooks at the request's moments (exhaustive), then random " +
 			"walks of 1..14 requests (30% arbitrary events, 60% through the ControlEnvironment glue, 8% teardowns with scripted release results) over 0..5 hooks " +
-			"(call and task hooks, failing executions, floating awaits); non-trivial = >=2 hooks and >=3 requests; distinct by input text",
+			"(call and task hooks, failing executions, floating awaits; 9% of the positions hold an overlapping pair), plus the exhaustive table of overlapping pairs " +
+			"(5 states x every first request that reaches its critical section x 13 second requests, teardown + control pairs included); non-trivial = >=2 hooks and >=3 requests; distinct by input text",
 		Shrink:   envh.Shrink,
 		Workers:  1,
 		Setup:    envh.Setup,
 		Teardown: envh.Teardown,
 		TrustedBase: []string{
 			"harness/envh: environment builder (YAML roles, NewTaskForVerif tasks), probe plugin, event capture, fake task manager answering ReleaseTasks",
-			"the 6 lines of RpcServer.ControlEnvironment (failed transition => GO_ERROR => forced ERROR) are replicated in the harness; the real RPC is exercised by the whole-core simulator",
+			"the 6 lines of RpcServer.ControlEnvironment (failed transition => GO_ERROR => forced ERROR unless the condition written in the source spares the state) are replicated in the harness; the condition itself is read from core/server.go of the tree under test by go/ast (harness/envh/glue.go) and pinned by C01_glue_is_code; the real RPC is exercised by the whole-core simulator",
 			"verif hooks in /repo: core/environment/verif_hooks.go, core/workflow/verif_hooks.go, core/the/verif_hooks.go, core/task/verif_hooks_task.go",
 		},
 		Assumptions: []string{
 			"looplab/fsm v1.0.1 Event/Cancel semantics as modelled (sampled by every case)",
 			"scripted task-level bodies stand in for the real transition bodies (Deploy/Configure/Start/Stop/Reset talk to the task manager)",
-			"transitionMutex serialises requests (sync.RWMutex trusted); this harness issues requests sequentially",
+			"transitionMutex serialises requests (sync.RWMutex trusted); overlap is arranged pairwise (second request observed blocked on transitionMutex while the first is parked inside its critical section)",
 		},
 	})
 }
